@@ -53,6 +53,12 @@ def draw(rng, mk):
 
 def grid_array(rng, n, lo, hi):
     ints = rng.integers(int(lo / Q), int(hi / Q), n)
+    if rng.random() < .3 and n >= 3:
+        # quantised axis: repeated samples (monotonic, not strictly)
+        ints = np.sort(ints)[::-1]
+        j = rng.integers(0, ints.size - 1, max(1, ints.size // 5))
+        ints[j + 1] = ints[j]
+        return np.sort(ints)[::-1].astype(float) * Q
     ints = np.unique(ints)[::-1]
     return ints.astype(float) * Q
 
